@@ -968,21 +968,43 @@ pub fn chain_program(depth: usize, cyclic: bool) -> String {
 
 fn run_chains(ctx: &Ctx) {
     let depths: Vec<usize> = ctx.tier.pick(vec![1, 2, 8, 64], vec![1, 2, 8, 64, 256, 1024, 4096]);
-    for d in depths {
-        for cyclic in [false, true] {
+    // (depth, unoptimised build): the chains around the nesting limit also run in cargo's default profile, whose stack
+    // frames are several times larger, under the customary 8 MiB stack
+    let mut jobs: Vec<(usize, bool)> = depths.into_iter().map(|d| (d, false)).collect();
+    let have_debug = std::path::Path::new(CLI_DEBUG_BIN).exists();
+    if have_debug {
+        jobs.extend([(64usize, true), (90, true), (99, true), (100, true), (101, true), (150, true)]);
+    } else {
+        ctx.note("the unoptimised CLI is not built: deep chains run in the optimised build only");
+    }
+    use rayon::prelude::*;
+    let all: Vec<(usize, bool, bool)> = jobs.iter().flat_map(|(d, debug)| [(*d, *debug, false), (*d, *debug, true)]).collect();
+    // the children run side by side (each is single-threaded and spends its time building parsers)
+    let outs: Vec<CliOut> = all
+        .par_iter()
+        .map(|(d, debug, cyclic)| {
+            let src = chain_program(*d, *cyclic);
+            // 7 ms of parser construction per level inside the code under test; generous watchdog
+            if *debug {
+                run_bin_limited(CLI_DEBUG_BIN, src.as_bytes(), Stdin::Closed, false, 4 << 20, 240_000, Limits { as_bytes: 3 << 30, stack_bytes: Some(8 << 20) })
+            } else {
+                run_cli(src.as_bytes(), Stdin::Closed, false, 4 << 20, 120_000 + *d as u64 * 400)
+            }
+        })
+        .collect();
+    for ((d, debug, cyclic), out) in all.into_iter().zip(outs) {
+        {
             let src = chain_program(d, cyclic);
             ctx.add_evals(1);
-            ctx.class(&format!("c13/chain-{}", if cyclic { "cyclic" } else { "acyclic" }), 1);
-            // 7 ms of parser construction per level inside the code under test; generous watchdog
-            let out = run_cli(src.as_bytes(), Stdin::Closed, false, 4 << 20, 120_000 + d as u64 * 400);
-            let replay = json!({"kind":"cli","source": if d <= 64 { src.clone() } else { format!("(chain of depth {}, cyclic={}: regenerate with c13::chain_program)", d, cyclic) }, "stdin":"","interpreted":false, "chain_depth": d, "cyclic": cyclic});
+            ctx.class(&format!("c13/chain-{}{}", if cyclic { "cyclic" } else { "acyclic" }, if debug { "-unoptimised-build" } else { "" }), 1);
+            let replay = json!({"kind":"cli","source": if d <= 64 { src.clone() } else { format!("(chain of depth {}, cyclic={}: regenerate with c13::chain_program)", d, cyclic) }, "stdin":"","interpreted":false, "chain_depth": d, "cyclic": cyclic, "unoptimised_build": debug});
             match &out.status {
                 Status::Timeout | Status::SpawnError(_) => {
                     ctx.inconclusive(&format!("chain depth {}: {:?}", d, out.status));
                     continue;
                 }
                 Status::Signal(sig) => {
-                    ctx.fail(Failure { key: "c13|chain|killed-by-signal".into(), what: format!("macro chain of depth {} (cyclic={}): the emulator was killed by signal {} (stack overflow) instead of ending with a result or a diagnostic", d, cyclic, sig), replay });
+                    ctx.fail(Failure { key: "c13|chain|killed-by-signal".into(), what: format!("macro chain of depth {} (cyclic={}{}): the emulator was killed by signal {} (stack overflow) instead of ending with a result or a diagnostic", d, cyclic, if debug { ", unoptimised build, 8 MiB stack" } else { "" }, sig), replay });
                     continue;
                 }
                 _ => {}
